@@ -8,6 +8,7 @@ A contract clause is a function of a context `c`:
   c.uses       ghost families in force for the function under verification
   c.muts       {name: (container at entry, container at exit)} for mutated container arguments
 """
+import ast
 from z3 import And, BoolVal, Exists, ForAll, If, Implies, Int, IntVal, MultiPattern, Not, Or, Store
 
 from vlib.vc.model import *  # noqa
@@ -1181,6 +1182,61 @@ for _flag, _ret in ((False, 'set:name'), (True, 'set:int')):
     reg(Contract('dd.bdd.BDD.support!proved:' + ('levels' if _flag else 'names'), [('self', 'mgr'), ('u', 'int'), ('as_levels', 'bool')],
                  pre=lambda c, _f=_flag: wf(c.S, c.uses) + [('ref', isref(c.S, c.a.u)), ('as_levels', c.a.as_levels == BoolVal(_f))],
                  post=support_post, ret=_ret, uses={'hl', 'order'}))
+
+
+# ---------------------------------------------------------------------------------------------------------------
+# helpers of swap (C07) and the argument validation of swap (C17). The body of swap itself is bounded (DESIGN 12.2).
+def low_high_post(c):
+    S, a = c.S0, c.a
+    i, lo_, hi_ = c.r
+    k = absz(a.u)
+    return [('level', i == S.lvl[k]),
+            ('children', If(k == 1, And(lo_ == a.u, hi_ == a.u), And(lo_ == S.lo[k], hi_ == S.hi[k])))]
+
+
+reg(Contract('dd.bdd.BDD._low_high', [('self', 'mgr'), ('u', 'int')], pre=lambda c: wf(c.S, c.uses) + [('ref', isref(c.S, c.a.u))],
+             post=low_high_post, ret='triple', uses=set()))
+
+
+def swap_cofactor_post(c):
+    S, a = c.S0, c.a
+    i, lo_, hi_ = c.r
+    k = absz(a.u)
+    return [('below-y', Implies(a.y < S.lvl[k], And(i == S.lvl[k], lo_ == a.u, hi_ == a.u))),
+            ('at-or-above-y', Implies(Not(a.y < S.lvl[k]), And(i == a.y, lo_ == S.lo[k], hi_ == S.hi[k])))]
+
+
+reg(Contract('dd.bdd.BDD._swap_cofactor', [('self', 'mgr'), ('u', 'int'), ('y', 'int')],
+             pre=lambda c: wf(c.S, c.uses) + [('ref', isref(c.S, c.a.u)), ('y-is-a-level', And(0 <= c.a.y, c.a.y < c.S.nvars))],
+             post=swap_cofactor_post, ret='triple', uses=set()))
+
+
+def swap_levels(S, a, names):
+    if names:
+        return If(S.vin[a.x], S.v2l[a.x], -1), If(S.vin[a.y], S.v2l[a.y], -1), And(S.vin[a.x], S.vin[a.y])
+    return a.x, a.y, BoolVal(True)
+
+
+def swap_bad(names):
+    def bad(c):
+        S = c.S0
+        lx, ly, ok = swap_levels(S, c.a, names)
+        inr = lambda l: And(0 <= l, l < S.nvars)  # noqa
+        return Or(Not(ok), Not(inr(lx)), Not(inr(ly)), lx == ly, And(lx - ly != 1, ly - lx != 1))
+    return bad
+
+
+for _names in (False, True):
+    _k = reg(Contract('dd.bdd.BDD.swap!validation:' + ('names' if _names else 'levels'),
+                      [('self', 'mgr'), ('x', 'name' if _names else 'int'), ('y', 'name' if _names else 'int'), ('all_levels', 'opaque')],
+                      pre=lambda c: wf(c.S, c.uses), post=lambda c: [], ret='pair', uses=ORD,
+                      raises={'ValueError': Raise(when=swap_bad(_names), must=True)},
+                      note='only the argument validation of swap: execution is cut where the body starts (`oldsize = len(self._succ)`); '
+                           'proved: ValueError is raised, with nothing modified, iff the arguments are not two adjacent levels '
+                           '(or declared names at adjacent levels); otherwise the body is reached with x < y = x + 1'))
+    _k.stop_at = lambda st: isinstance(st, ast.Assign) and isinstance(st.targets[0], ast.Name) and st.targets[0].id == 'oldsize'
+    _k.stop_post = lambda c, _n=_names: [('body-reached-with-adjacent-levels', And(c.env_x + 1 == c.env_y, 0 <= c.env_x, c.env_y < c.S0.nvars)),
+                                         ('nothing-modified', And(*[M.keep(c.mgrs0[k], c.mgrs[k]) for k in c.mgrs0]))]
 
 
 # ---------------------------------------------------------------------------------------------------------------
